@@ -343,7 +343,14 @@ class FullFrontend(ConstrainedFrontend):
             # all constraints are satisfied
             return ()
 
-        unsat_core = self._solver_backend.unsat_core(self._get_solver())
+        # satisfiable() may have been answered from a cache (or by a solver object that has been dropped since), in
+        # which case the current backend solver has not derived a core yet: run the check on it first
+        solver = self._get_solver()
+        try:
+            self._solver_backend.satisfiable(extra_constraints=extra_constraints, solver=solver)
+        except BackendError as e:
+            raise ClaripyFrontendError("Backend error during solve") from e
+        unsat_core = self._solver_backend.unsat_core(solver)
 
         return tuple(unsat_core)
 
